@@ -38,6 +38,39 @@ contributes its guard in program order:
 
 Local variables are substituted (so renaming or reordering independent `let`s, `x += 1` vs `x = x + 1`, early return vs
 `else` give the same text). Anything outside this grammar raises Unsupported (fail closed, see rs2lean.py).
+
+Forms that are read as what they mean in Rust (each a syntactic identity of the language / of std on `usize`, `bool`,
+`Option`, `Result<_, String>`; nothing here depends on the invariant of the storages):
+
+  private (inherent) methods          a call `self.helper(args)` executes the helper's body in place: on the caller's state, with only
+                                      its parameters in scope, `return` continuing after the call (`&self` helpers must leave the
+                                      state alone, `&mut self` helpers return `()`; helpers may answer usize / bool / T / &[T] /
+                                      Option / Result of these). Extracting or merging helpers therefore gives the *same text*, and
+                                      no theorem needs a helper's name; their stand-alone definitions are emitted for the reader only.
+  match / if let / matches on          bool (`true`/`false`), `a.cmp(&b)` on usize (`Less`/`Equal`/`Greater`: a < b / a = b / a > b),
+                                      usize literals with a final `_`, Option (`Some(x)` / `None`): an if-chain over the arms in
+                                      source order; the last arm becomes the `else` only after the patterns were seen to cover
+                                      the whole domain, an arm that can never match is refused, guards are refused.
+  Option / Result values              never symbolic: wherever one is produced (`Some(e)`, `None`, `a.checked_sub(b)` = Some(a-b) iff
+                                      a >= b, `buf.get(i)` = Some(buf[i]) iff i < len, `c.then_some(e)`, `c.then(|| e)`) the decision
+                                      tree splits, so on each path it is a known constructor and `unwrap_or`, `unwrap_or_default`,
+                                      `is_some`, `is_none`, `map`, `map_or`, `is_some_and`, `ok_or[_else]`, `copied`, `?` are std's
+                                      definitions by cases. `self.m()?` on a fallible trait method is the generated
+                                      `match m self with | .err => .err | … | .ok x => …`.
+  usize::from(c)                      = `c as usize` (1 / 0)
+  while                               only `let mut i = 0; while i < N { B; i += 1 }` with B made of byte copies (= `for i in 0..N { B }`)
+  for i in 0..n { buf[i] = buf[S+i] } front-to-back element copy to the start of the buffer = memmove buf S 0 n (a cell is overwritten
+                                      only after it was read unless S = 0, where the copy is the identity); fails at the first index
+                                      out of range, i.e. iff n > 0 and S + n > length (`.panic` for `[]`, `.ub` for get_unchecked)
+  struct literals                     `Self { .. }` or the struct's name, fields in any order, shorthand or `field: expr`; the buffer
+                                      field is known by its type (`[T; CAPACITY]` / `Vec<T>`), the counters by their names
+  mod.rs                              read structurally: any number of inherent `impl` blocks, each public method a forwarder
+                                      `self.<storage field>.<same name>(<its parameters in order>)` (tail expression, `return`, or
+                                      statement), `with_storage` a struct literal storing its argument and one of the spellings of
+                                      `PhantomData`, the constructors `SlidingWindow::with_storage(<Storage>::new(..))` with or
+                                      without locals; `use` lists are expanded, not matched as text.
+Still refused: `loop`, general `while` / `for`, `while let`, closures outside the Option combinators, match guards,
+slice patterns, tuple `let`s (`split_at_mut`), iterator chains over the buffer, renamed counter fields, new trait methods.
 """
 import re, os, pathlib
 from rsexpr import Unsupported, tokenize, Parser
@@ -265,9 +298,24 @@ class P(Parser):
                 kind, name = self.next()
                 if kind != 'id':
                     raise Unsupported('field expected after .')
-                if self.peek()[1] == '::':          # method turbofish
-                    raise Unsupported('turbofish on a method call')
-                if self.peek()[1] == '(':
+                if self.peek()[1] == '::':          # method turbofish: kept as text, refused by the executor
+                    self.next()
+                    if self.peek()[1] != '<':
+                        raise Unsupported('`::` after a method name without `<`')
+                    depth, tf = 0, []
+                    while True:
+                        kk, tk = self.next()
+                        if kk == 'eof':
+                            raise Unsupported('unterminated turbofish')
+                        depth += (tk == '<') - (tk == '>')
+                        if depth <= 0:
+                            break
+                        if not (depth == 1 and tk == '<'):
+                            tf.append(tk)
+                    if self.peek()[1] != '(':
+                        raise Unsupported('turbofish without call')
+                    e = ('mcall', e, name, self.args(), ''.join(tf))
+                elif self.peek()[1] == '(':
                     e = ('mcall', e, name, self.args())
                 else:
                     e = ('field', e, name)
@@ -278,6 +326,9 @@ class P(Parser):
                 self.no_struct = saved
                 self.expect(']')
                 e = ('index', e, idx)
+            elif v == '?':
+                self.next()
+                e = ('try', e)
             else:
                 return e
 
@@ -296,6 +347,8 @@ class P(Parser):
             return ('repeat', first, cnt)
         if v == 'if':
             return self.if_()
+        if v == 'match':
+            return self.match_()
         if v == 'unsafe':
             self.next()
             return ('block', self.block())
@@ -306,7 +359,31 @@ class P(Parser):
             e = super().atom()
             self.no_struct = saved
             return e
-        if v in ('match', 'loop', 'while', 'for', 'let', 'return', 'break', 'continue', 'move') or v == '|':
+        if v in ('|', '||'):
+            # closure `|x| e`, `|x: ty| e`, `|_| e`, `|| e` — only as the argument of an Option combinator
+            self.next()
+            names = []
+            if v == '|':
+                while self.peek()[1] != '|':
+                    k2, nm = self.next()
+                    if k2 != 'id' or nm in ('mut', 'ref'):
+                        raise Unsupported('closure parameter pattern')
+                    names.append(nm)
+                    if self.peek()[1] == ':':
+                        self.next()
+                        depth = 0
+                        while not (depth == 0 and self.peek()[1] in (',', '|')):
+                            t = self.next()
+                            if t[0] == 'eof':
+                                raise Unsupported('closure parameter type')
+                            depth += (t[1] in '<[(') - (t[1] in '>])')
+                    if self.peek()[1] == ',':
+                        self.next()
+                self.next()
+            if self.peek()[1] == '->':
+                raise Unsupported('closure with a return type')
+            return ('closure', names, self.expr())
+        if v in ('loop', 'while', 'for', 'let', 'return', 'break', 'continue', 'move'):
             raise Unsupported(f'`{v}` in expression position')
         e = super().atom()
         if e[0] == 'path':
@@ -354,15 +431,101 @@ class P(Parser):
 
     def if_(self):
         self.expect('if')
+        pats = None
         if self.peek()[1] == 'let':
-            raise Unsupported('if let')
+            # `if let PAT = e { A } else { B }`  ==  `match e { PAT => { A } _ => { B } }` (the Rust reference's desugaring)
+            self.next()
+            pats = self.pattern()
+            self.expect('=')
         c = self.cond()
         then = self.block()
         els = None
         if self.peek()[1] == 'else':
             self.next()
             els = [self.if_()] if self.peek()[1] == 'if' else self.block()
+        if pats is not None:
+            return ('match', c, [(pats, then), ([('wild',)], els or [])])
         return ('if', c, then, els)
+
+    def pattern(self):
+        if self.peek()[1] == '|':
+            self.next()
+        alts = [self.pat1()]
+        while self.peek()[1] == '|':
+            self.next()
+            alts.append(self.pat1())
+        return alts
+
+    def pat1(self):
+        kind, v = self.next()
+        if kind == 'num':
+            return ('plit', int(re.sub(r'(u|i)(8|16|32|64|128|size)$', '', v).replace('_', '')))
+        if kind != 'id' or v in ('ref', 'mut', 'box'):
+            raise Unsupported('pattern ' + v)
+        if v == '_':
+            return ('wild',)
+        path = [v]
+        while self.peek()[1] == '::':
+            self.next()
+            k2, v2 = self.next()
+            if k2 != 'id':
+                raise Unsupported('pattern path')
+            path.append(v2)
+        if self.peek()[1] == '(':
+            self.next()
+            inner = self.pat1()
+            self.expect(')')
+            return ('pctor', path, inner)
+        if self.peek()[1] in ('{', '@', '.'):
+            raise Unsupported('pattern form')
+        if len(path) == 1 and v in ('true', 'false'):
+            return ('pbool', v == 'true')
+        if len(path) == 1 and (v[:1].islower() or v[:1] == '_'):
+            return ('pbind', v)
+        return ('ppath', path)
+
+    def match_(self):
+        self.expect('match')
+        scrut = self.cond()
+        self.expect('{')
+        arms = []
+        saved, self.no_struct = self.no_struct, False
+        while self.peek()[1] != '}':
+            if self.peek()[0] == 'eof':
+                raise Unsupported('unterminated match')
+            pats = self.pattern()
+            if self.peek()[1] == 'if':
+                raise Unsupported('match guard')
+            self.expect('=>')
+            if self.peek()[1] == '{':
+                body = self.block()
+                if self.peek()[1] == ',':
+                    self.next()
+            else:
+                body = [self.arm_stmt()]
+                if self.peek()[1] == ',':
+                    self.next()
+                elif self.peek()[1] != '}':
+                    raise Unsupported('`,` expected after a match arm')
+            arms.append((pats, body))
+        self.expect('}')
+        self.no_struct = saved
+        if not arms:
+            raise Unsupported('match without arms')
+        return ('match', scrut, arms)
+
+    def arm_stmt(self):
+        """the expression of a match arm, as one statement of a block (`return e`, an assignment, or a value)"""
+        if self.peek()[1] == 'return':
+            self.next()
+            e = None if self.peek()[1] in (',', '}') else self.expr()
+            return ('return', e)
+        e = self.expr()
+        op = self.peek()[1]
+        if op in ('=', '+=', '-=', '*='):
+            self.next()
+            return ('assign', e, op, self.expr())
+        return ('tail', e)
 
     def block(self):
         self.expect('{')
@@ -414,11 +577,19 @@ class P(Parser):
             if self.peek()[1] == ';':
                 self.next()
             return ('return', e)
-        if v in ('if', 'unsafe', '{'):
+        if v == 'while':
+            self.next()
+            if self.peek()[1] == 'let':
+                raise Unsupported('while let')
+            c = self.cond()
+            return ('while', c, self.block())
+        if v in ('if', 'unsafe', '{', 'match'):
             # block-like expression in statement position: it ends the statement (Rust's rule); it is the value of the
             # enclosing block when it comes last
             if v == 'if':
                 e = self.if_()
+            elif v == 'match':
+                e = self.match_()
             else:
                 if v == 'unsafe':
                     self.next()
@@ -752,6 +923,8 @@ class Tr:
         self.uses_tsz = False
         self.uses_d = False
         self.memo = {}
+        self.retk = None          # continuation of `return` while a private helper is being inlined
+        self.inlining = []
 
     def fresh(self, stem):
         self.n += 1
@@ -781,25 +954,72 @@ class Tr:
                 raise self.bad('statement after the tail expression')
             return self.ev(s[1], env, k)
         if t == 'return':
+            retk = self.retk or self.ret
             if s[1] is None:
-                return self.ret(env, UNIT)
-            return self.ev(s[1], env, self.ret)
+                return retk(env, UNIT)
+            return self.ev(s[1], env, retk)
         if t == 'assign':
             return self.assign(s[1], s[2], s[3], env, then)
-        if t in ('if', 'block', 'for') or (t == 'expr' and self.is_ptr_copy(s[1])):
+        if t in ('if', 'block', 'for', 'while') or (t == 'expr' and self.is_ptr_copy(s[1])):
             try:
                 items, used, env2 = self.byte_group(stmts, env)
                 return self.resolve_bytes(items, env2, lambda e: self.seq(stmts[used:], e, k))
             except NotGroup:
                 pass
         if t == 'for':
-            raise self.bad('`for` loop outside the recognised byte-copy pattern')
+            return self.elem_loop(s, env, then)
+        if t == 'while':
+            raise self.bad('`while` loop outside the recognised byte-copy pattern')
         if t == 'expr':
             return self.ev(s[1], env, lambda e, v: then(e))
-        if t in ('if', 'block'):
+        if t in ('if', 'block', 'match'):
             # value of the enclosing block when last, otherwise executed for its effect
             return self.ev(s, env, k if not rest else (lambda e, v: then(e)))
         raise self.bad('statement ' + t)
+
+    def elem_loop(self, s, env, k):
+        """`for i in 0..n { buf[i] = buf[S + i]; }` (both sides checked indexing, or both `get_unchecked`): a front-to-back
+        element copy to the *start* of the buffer. Cell i is written after cells S+i.. were read only if S = 0, where the
+        copy is the identity, so the loop moves the old cells S..S+n to 0..n: `memmove buf S 0 n`. It fails (first
+        out-of-range index, whatever was copied before) exactly when n > 0 and S + n exceeds the length."""
+        _, var, lo, hi, body = s
+        body = [b for b in body if b[0] != 'nop']
+        while len(body) == 1 and body[0][0] == 'block':
+            body = [b for b in body[0][1] if b[0] != 'nop']
+        if len(body) != 1 or body[0][0] != 'assign' or body[0][2] != '=':
+            raise self.bad('`for` loop that is neither the byte-copy pattern nor `buf[i] = buf[S + i]`')
+        lhs, rhs = unparen(body[0][1]), unparen(body[0][3])
+
+        def cell(x):
+            if x[0] == 'index' and self.is_buf(x[1]) and x[2][0] != 'range':
+                return '.panic', x[2]
+            if x[0] == 'deref' and unparen(x[1])[0] == 'mcall' and unparen(x[1])[2] in ('get_unchecked', 'get_unchecked_mut') and \
+                    self.is_buf(unparen(x[1])[1]) and len(unparen(x[1])[3]) == 1 and unparen(x[1])[3][0][0] != 'range':
+                return '.ub', unparen(x[1])[3][0]
+            raise self.bad('`for` loop body is not an element copy within the buffer')
+        (f1, i1), (f2, i2) = cell(lhs), cell(rhs)
+        if f1 != f2:
+            raise self.bad('element copy mixing checked and unchecked indexing')
+        lo_v, hi_v = self.pure(lo, env), self.pure(hi, env)
+        self.need(lo_v, 'nat'), self.need(hi_v, 'nat')
+        ivar = '$' + var
+        e2 = env.push().let(var, V('nat', ('v', ivar)))
+        d, src = self.pure(i1, e2), self.pure(i2, e2)
+        self.need(d, 'nat'), self.need(src, 'nat')
+
+        def subst0(x):
+            if x == ('v', ivar):
+                return lit(0)
+            if isinstance(x, tuple):
+                return tuple(subst0(y) if isinstance(y, tuple) else y for y in x)
+            return x
+        base = subst0(src.ir)
+        if lo_v.ir != lit(0) or canon(d.ir) != ('v', ivar) or ivar in free_vars(base, set()) or \
+                canon(src.ir) != canon(('add', base, ('v', ivar))):
+            raise self.bad('element copy loop is not `for i in 0..n { buf[i] = buf[S + i] }`')
+        buf, n = env.fields['buf'], hi_v.ir
+        res = k(env.setf('buf', ('memmove', buf, canon(base), lit(0), n)))
+        return ('guard', ('and', ('cmp', '>', n, lit(0)), ('cmp', '>', mk_add(canon(base), n), mk_len(buf))), f1, res)
 
     def assign(self, lhs, op, rhs, env, k):
         def with_rhs(e, v):
@@ -886,6 +1106,9 @@ class Tr:
             return ('leaf', '.ok ' + render(v.ir, 100))
         m = re.fullmatch(r'Result<(.+),String>', r)
         if m:
+            if v.kind == 'rescall':
+                var = self.fresh('r')
+                return ('bind', v.text, var, self.ret(env, V('ok', inner=V(v.inner_kind, ('v', var)))))
             if v.kind == 'err':
                 return ('leaf', '.err')
             if v.kind != 'ok':
@@ -950,7 +1173,112 @@ class Tr:
                 self.need(c, 'prop')
                 return mk_if(c.ir, self.block(x[2], e, k), self.block(x[3] or [], e, k))
             return self.ev(x[1], env, with_c)
+        if t == 'match':
+            return self.ev(x[1], env, lambda e, sv: self.match(sv, x[2], e, k))
+        if t == 'try':
+            # `e?`: Ok(v) / Some(v) -> v, Err(_) / None -> leave the function with it
+            def with_v(e, v):
+                if v.kind == 'rescall':
+                    if not re.fullmatch(r'Result<.+,String>', self.fn.ret):
+                        raise self.bad('`?` on a Result in a function that does not return Result<_, String>')
+                    var = self.fresh({'elem': 'x', 'list': 'l', 'nat': 'n'}[v.inner_kind])
+                    return ('bind', v.text, var, k(e, V(v.inner_kind, ('v', var))))
+                if v.kind in ('ok', 'some'):
+                    return k(e, v.inner)
+                if v.kind in ('err', 'none'):
+                    return (self.retk or self.ret)(e, v)
+                raise self.bad('`?` on a ' + v.kind)
+            return self.ev(x[1], env, with_v)
         raise self.bad('expression form ' + t)
+
+    # ---- match / if let: an if-chain over the arms in source order -----------------------------------
+    DOMAIN = {'prop': ('true', 'false'), 'ord': ('Less', 'Equal', 'Greater'), 'some': ('Some', 'None'), 'none': ('Some', 'None')}
+
+    def match(self, sv, arms, env, k):
+        """`match s { P1 => e1, …, Pn => en }` on a bool, an `Ordering` (`a.cmp(&b)` on usize) or an `Option<usize>`
+        (`a.checked_sub(b)`): arms are tried in source order, so the match is `if s∈P1 {e1} else if s∈P2 {e2} … else {en}`.
+        The last arm becomes the `else` only after the patterns were seen to cover the whole (finite) domain; an arm
+        that can never be reached is refused."""
+        if sv.kind not in self.DOMAIN and sv.kind != 'nat':
+            raise self.bad('match on a ' + sv.kind)
+
+        def go(i, remaining):
+            if i == len(arms):
+                raise self.bad('match does not cover ' + ', '.join(sorted(remaining or ['every value'])))
+            pats, body = arms[i]
+            covered, cond, binds = set(), ('false',), {}
+            for p in pats:
+                c1, p1, b1 = self.pat(sv, p)
+                covered |= c1
+                cond = p1 if cond == ('false',) else ('or', cond, p1)
+                if b1 and len(pats) > 1:
+                    raise self.bad('binding in an or-pattern')
+                binds.update(b1)
+            if remaining is not None and not (covered & remaining):
+                raise self.bad('unreachable match arm')
+            e2 = env.push()
+            for n, v in binds.items():
+                e2 = e2.let(n, v)
+            then = None if cond == ('false',) else self.seq(body, e2, lambda e3, v: k(e3.pop(), v))
+            left = None if (remaining is None and 'ALL' not in covered) else \
+                (set() if 'ALL' in covered else remaining - covered)
+            if left is not None and not left:
+                if i != len(arms) - 1:
+                    raise self.bad('unreachable match arm')
+                if then is None:
+                    raise self.bad('internal: the last arm of a match is dead on this path')
+                return then
+            if cond == ('true',):
+                self.check_arms(arms[i + 1:], sv, left)
+                return then
+            return mk_if(cond, then, go(i + 1, left))
+        return go(0, set(self.DOMAIN[sv.kind]) if sv.kind in self.DOMAIN else None)
+
+    def check_arms(self, arms, sv, remaining):
+        """the arms after one that is certainly taken on this path: still well-formed patterns that complete the cover"""
+        for j, (pats, _) in enumerate(arms):
+            covered = set()
+            for p in pats:
+                covered |= self.pat(sv, p)[0]
+            if remaining is not None:
+                if not (covered & remaining):
+                    raise self.bad('unreachable match arm')
+                remaining = set() if 'ALL' in covered else remaining - covered
+            elif 'ALL' in covered:
+                remaining = set()
+            if remaining is not None and not remaining and j != len(arms) - 1:
+                raise self.bad('unreachable match arm')
+        if remaining is None or remaining:
+            raise self.bad('match does not cover ' + ', '.join(sorted(remaining or ['every value'])))
+
+    def pat(self, sv, p):
+        """(values of the domain the pattern covers, its condition as a prop, bindings)"""
+        kind = sv.kind
+        if p[0] == 'wild':
+            return ({'ALL'} | set(self.DOMAIN.get(kind, ())), ('true',), {})
+        if p[0] == 'pbind':
+            if kind != 'nat':
+                raise self.bad('binding pattern on a ' + kind)
+            return {'ALL'}, ('true',), {p[1]: sv}
+        if kind == 'prop' and p[0] == 'pbool':
+            return {'true' if p[1] else 'false'}, (sv.ir if p[1] else mk_not(sv.ir)), {}
+        if kind == 'nat' and p[0] == 'plit':
+            return set(), ('cmp', '==', sv.ir, lit(p[1])), {}
+        if kind == 'ord' and p[0] == 'ppath' and p[1][-1] in self.DOMAIN['ord'] and \
+                p[1][:-1] in ([], ['Ordering'], ['cmp', 'Ordering'], ['std', 'cmp', 'Ordering'], ['core', 'cmp', 'Ordering']):
+            op = {'Less': '<', 'Equal': '==', 'Greater': '>'}[p[1][-1]]
+            return {p[1][-1]}, ('cmp', op, sv.a, sv.b), {}
+        # an Option is always a concrete `Some(v)` or `None` on the path being executed (see `option`)
+        if kind in ('some', 'none') and p[0] == 'ppath' and p[1] in (['None'], ['Option', 'None']):
+            return {'None'}, (('true',) if kind == 'none' else ('false',)), {}
+        if kind in ('some', 'none') and p[0] == 'pctor' and p[1] in (['Some'], ['Option', 'Some']):
+            inner = p[2]
+            here = ('true',) if kind == 'some' else ('false',)
+            if inner[0] == 'wild':
+                return {'Some'}, here, {}
+            if inner[0] == 'pbind':
+                return {'Some'}, here, ({inner[1]: sv.inner} if kind == 'some' else {})
+        raise self.bad(f'pattern {p!r} on a {kind}')
 
     def path(self, p, env):
         if len(p) == 1:
@@ -960,6 +1288,8 @@ class Tr:
                 return v
             if n in ('true', 'false'):
                 return V('prop', (n,))
+            if n == 'None':
+                return V('none')
             if n == '__STR__' or n in self.st.str_consts:
                 return V('str')
             c = self.st.const(n, self, env)
@@ -1086,6 +1416,8 @@ class Tr:
             raise self.bad('call of a non-path')
         p = [s for s in f[1] if s != '<>']
         turbofish = '<>' in f[1]
+        if p == ['Some'] and len(a) == 1:
+            return self.ev(a[0], env, lambda e, v: k(e, V('some', inner=v)))
         if p in (['Ok'], ['Err']) and len(a) == 1:
             if p == ['Err']:
                 return self.ev(a[0], env, lambda e, v: k(e, V('err')))
@@ -1108,6 +1440,9 @@ class Tr:
                 return ('guard', ('cmp', '>', mk_add(ptr.off, n.ir), mk_len(buf)), '.ub',
                         k(e, V('list', mk_slice(buf, ptr.off, n.ir))))
             return self.evs(a, env, frp)
+        if p == ['usize', 'from'] and len(a) == 1 and not turbofish:
+            # `impl From<bool> for usize`: true -> 1, false -> 0, the same as `b as usize`
+            return self.ev(a[0], env, lambda e, v: (self.need(v, 'prop'), k(e, self.cast(v, 'usize')))[1])
         if p == ['Vec', 'with_capacity'] and len(a) == 1:
             return self.ev(a[0], env, lambda e, n: (self.need(n, 'nat'), k(e, V('list', ('nil',))))[1])
         raise self.bad('call of ' + '::'.join(f[1]))
@@ -1135,6 +1470,8 @@ class Tr:
 
     def mcall(self, x, env, k):
         obj, name, a = x[1], x[2], x[3]
+        if len(x) > 4:
+            raise self.bad(f'turbofish on the method call .{name}()')
         if obj == ('path', ['self']):
             return self.self_call(name, a, env, k)
         # operations on the buffer field
@@ -1143,6 +1480,14 @@ class Tr:
                 return k(env, V('ptr', None, off=lit(0)))
             if name == 'get_unchecked' and len(a) == 1 and a[0][0] == 'range':
                 return self.index(V('list', env.fields['buf']), a[0], '.ub', env, k)
+            if name == 'get' and len(a) == 1 and a[0][0] != 'range':
+                # `buf.get(i)`: Some(&buf[i]) iff i < len, else None — the path splits, the read below cannot fail
+                def with_i(e, i):
+                    self.need(i, 'nat')
+                    buf = e.fields['buf']
+                    return mk_if(('cmp', '<', i.ir, mk_len(buf)),
+                                 self.read(buf, i, '.panic', e, lambda e2, v: k(e2, V('some', inner=v))), k(e, V('none')))
+                return self.ev(a[0], env, with_i)
             if name == 'copy_within' and len(a) == 2 and a[0][0] == 'range' and a[0][1] is not None and a[0][2] is not None:
                 def cw(e, vs):
                     lo, hi, d = vs
@@ -1188,6 +1533,9 @@ class Tr:
             return self.evs(a, env, rs)
 
         def with_obj(e, o):
+            if o.kind in ('some', 'none', 'prop') and name in self.OPTION_METHODS:
+                return self.option(o, name, a, e, k)
+
             def with_args(e2, vs):
                 if o.kind == 'nat' and len(vs) == 1 and vs[0].kind == 'nat':
                     b = vs[0].ir
@@ -1199,6 +1547,11 @@ class Tr:
                         return k(e2, V('nat', mk_add(o.ir, b)))      # no overflow: stated assumption
                     if name == 'min':
                         return k(e2, V('nat', ('min', o.ir, b)))
+                    if name == 'cmp':              # only usable as the scrutinee of a match / if let
+                        return k(e2, V('ord', None, a=o.ir, b=b))
+                    if name == 'checked_sub':      # Some(a - b) iff a >= b, else None: the path splits here
+                        return mk_if(('cmp', '>=', o.ir, b), k(e2, V('some', inner=V('nat', mk_sub(o.ir, b)))),
+                                     k(e2, V('none')))
                 if o.kind == 'ptr' and name == 'add' and len(vs) == 1 and vs[0].kind == 'nat':
                     off = mk_add(o.off, vs[0].ir)
                     return ('guard', ('cmp', '>', off, mk_len(e2.fields['buf'])), '.ub', k(e2, V('ptr', None, off=off)))
@@ -1214,7 +1567,122 @@ class Tr:
             return self.evs(a, e, with_args)
         return self.ev(obj, env, with_obj)
 
+    def inline(self, fn, a, env, k):
+        """a call of a private (inherent) method: its body is executed in place — on the caller's state, with only its
+        parameters in scope, `return` continuing after the call. That is what the call means; `#[inline]` or not."""
+        if fn.name in self.inlining:
+            raise self.bad('recursive call of ' + fn.name)
+        if fn.recv is None:
+            raise self.bad(f'call of the associated function {fn.name} through self')
+        if fn.generics:
+            raise self.bad('call of the generic method ' + fn.name)
+        if len(a) != len(fn.params):
+            raise self.bad(f'call of {fn.name} with {len(a)} argument(s)')
+        simple = {'': 'unit', 'usize': 'nat', 'bool': 'prop', 'T': 'elem', '&[T]': 'list'}
+        want_ret, want_inner = simple.get(fn.ret), None
+        m = re.fullmatch(r'Option<(.+)>|Result<(.+),String>', fn.ret)
+        if m and simple.get(m.group(1) or m.group(2)) not in (None, 'unit'):
+            want_ret, want_inner = ('some', 'none') if m.group(1) else ('ok', 'err'), simple[m.group(1) or m.group(2)]
+        if want_ret is None or (fn.recv == 'mut' and want_ret != 'unit'):
+            raise self.bad(f'helper {fn.name} returns {fn.ret or "()"}')
+        body = parse_body(fn.body, f'{fn.where}::{fn.name}')
+
+        def with_args(e, vs):
+            scope = {}
+            for (pn, ty), v in zip(fn.params, vs):
+                want = {'usize': 'nat', 'T': 'elem', 'bool': 'prop'}.get(ty)
+                if want is None:
+                    raise self.bad(f'helper {fn.name}: parameter {pn}: {ty}')
+                self.need(v, want)
+                scope[pn] = v
+            outer = (self.fn, self.retk, self.where, list(self.inlining))
+            fields_before = dict(e.fields) if fn.recv == 'ref' else None
+
+            def kont(e2, v):
+                if (v.kind not in want_ret) if want_inner else (v.kind != want_ret):
+                    raise self.bad(f'helper {fn.name} answers a {v.kind}, declared {fn.ret or "()"}')
+                if want_inner and v.kind in ('some', 'ok') and v.inner.kind != want_inner:
+                    raise self.bad(f'helper {fn.name} answers a {v.kind}({v.inner.kind}), declared {fn.ret}')
+                if fields_before is not None and (e2.fields != fields_before or e2.base != e.base):
+                    raise self.bad(f'the `&self` helper {fn.name} changes the state')
+                inner = (self.fn, self.retk, self.where, list(self.inlining))
+                self.fn, self.retk, self.where, self.inlining = outer
+                try:
+                    return k(Env(e2.base, e2.fields, e.scopes), v)
+                finally:
+                    self.fn, self.retk, self.where, self.inlining = inner
+            self.fn, self.retk, self.where = fn, kont, f'{outer[2]} -> {fn.name}'
+            self.inlining = outer[3] + [fn.name]
+            try:
+                return self.block(body, Env(e.base, e.fields, [scope]), kont)
+            finally:
+                self.fn, self.retk, self.where, self.inlining = outer
+        return self.evs(a, env, with_args)
+
+    # ---- Option / Result values -----------------------------------------------------------------
+    OPTION_METHODS = ('unwrap_or', 'unwrap_or_default', 'is_some', 'is_none', 'map_or', 'is_some_and', 'map', 'ok_or',
+                      'ok_or_else', 'copied', 'cloned', 'then_some', 'then')
+
+    def option(self, o, name, a, env, k):
+        """An `Option` never exists as a symbolic value: wherever one is produced (`Some(e)`, `None`, `a.checked_sub(b)`,
+        `buf.get(i)`, `c.then_some(e)`) the decision tree splits, so on every path it is a known `Some(v)` or `None` and
+        the combinators below are std's definitions by cases on the constructor."""
+        def closure(x, nparams):
+            x = unparen(x)
+            if x[0] != 'closure' or len(x[1]) != nparams:
+                raise self.bad(f'.{name}(..): a closure with {nparams} parameter(s) expected')
+            return x
+
+        def apply(cl, arg, e, kk):
+            e2 = e.push()
+            if cl[1]:
+                e2 = e2.let(cl[1][0], arg) if cl[1][0] != '_' else e2
+            return self.ev(cl[2], e2, lambda e3, v: kk(e3.pop(), v))
+        if o.kind == 'prop':
+            if name == 'then_some' and len(a) == 1:
+                return self.ev(a[0], env, lambda e, v: mk_if(o.ir, k(e, V('some', inner=v)), k(e, V('none'))))
+            if name == 'then' and len(a) == 1:
+                cl = closure(a[0], 0)
+                return mk_if(o.ir, apply(cl, None, env, lambda e, v: k(e, V('some', inner=v))), k(env, V('none')))
+            raise self.bad(f'method {name} on a bool')
+        some = o.kind == 'some'
+        if name in ('copied', 'cloned') and not a:
+            return k(env, o)
+        if name in ('is_some', 'is_none') and not a:
+            return k(env, V('prop', ('true',) if some == (name == 'is_some') else ('false',)))
+        if name == 'unwrap_or_default' and not a:
+            if some:
+                return k(env, o.inner)
+            raise self.bad('unwrap_or_default of a None whose type is not known here')
+        if name == 'unwrap_or' and len(a) == 1:
+            return self.ev(a[0], env, lambda e, d: k(e, o.inner if some else d))
+        if name == 'ok_or' and len(a) == 1:
+            return self.ev(a[0], env, lambda e, d: k(e, V('ok', inner=o.inner) if some else V('err')))
+        if name == 'ok_or_else' and len(a) == 1:
+            cl = closure(a[0], 0)
+            if some:
+                return k(env, V('ok', inner=o.inner))
+            return apply(cl, None, env, lambda e, v: k(e, V('err')))
+        if name == 'map' and len(a) == 1:
+            cl = closure(a[0], 1)
+            if some:
+                return apply(cl, o.inner, env, lambda e, v: k(e, V('some', inner=v)))
+            return k(env, o)
+        if name == 'map_or' and len(a) == 2:
+            cl = closure(a[1], 1)
+            if some:
+                return self.ev(a[0], env, lambda e, d: apply(cl, o.inner, e, k))   # the default is evaluated, then unused
+            return self.ev(a[0], env, k)
+        if name == 'is_some_and' and len(a) == 1:
+            cl = closure(a[0], 1)
+            if some:
+                return apply(cl, o.inner, env, k)
+            return k(env, V('prop', ('false',)))
+        raise self.bad(f'method {name} on an Option')
+
     def self_call(self, name, a, env, k):
+        if not self.from_default and name in self.st.inherent:
+            return self.inline(self.st.inherent[name], a, env, k)
         callee = self.st.resolve(name, self.from_default, self)
         if len(a) != len(callee.fn.params):
             raise self.bad(f'call of {name} with {len(a)} argument(s)')
@@ -1246,6 +1714,11 @@ class Tr:
             elif r == '&[T]':
                 var = self.fresh('l')
                 v = V('list', ('v', var))
+            elif re.fullmatch(r'Result<(T|&\[T\]|Vec<T>|usize),String>', r):
+                # a fallible accessor: usable only where its `Err` is handed on unchanged (`self.m()?`, or as the value the
+                # function returns), which is what the generated `match … | .err => .err | .ok x => …` does
+                inner = {'T': 'elem', '&[T]': 'list', 'Vec<T>': 'list', 'usize': 'nat'}[r[7:-8]]
+                return k(e, V('rescall', None, text=text, inner_kind=inner))
             else:
                 raise self.bad(f'call of {name}, which returns {r}')
             saved = dict(self.memo)
@@ -1317,6 +1790,29 @@ class Tr:
             if got is None or not got[1]:
                 return None
             return env, [('loop', ivar, hi.ir, got[1])]
+        if t == 'while':
+            # `let mut i = 0; while i < N { B; i += 1; }` with B free of assignments to `i` (B is made of byte copies, pure
+            # `let`s and nested such loops only) is `for i in 0..N { B }`; afterwards i = N
+            c = unparen(s[1])
+            if not (c[0] == 'bin' and c[1] == '<' and unparen(c[2])[0] == 'path' and len(unparen(c[2])[1]) == 1 and s[2]):
+                return None
+            iname = unparen(c[2])[1][0]
+            cur = env.lookup(iname)
+            last = s[2][-1]
+            step = last[0] == 'assign' and unparen(last[1]) == ('path', [iname]) and (
+                (last[2] == '+=' and unparen(last[3]) == ('num', 1)) or
+                (last[2] == '=' and unparen(last[3]) in (('bin', '+', ('path', [iname]), ('num', 1)),
+                                                         ('bin', '+', ('num', 1), ('path', [iname])))))
+            if cur is None or cur.kind != 'nat' or cur.ir != lit(0) or not step or binds_name(s[2][:-1], iname):
+                return None
+            try:
+                hi = self.pure(c[3], env)
+            except Unsupported:
+                return None
+            got = self.byte_stmt(('for', iname, ('num', 0), c[3], s[2][:-1]), env)
+            if got is None or hi.kind != 'nat':
+                return None
+            return got[0].assign(iname, hi), got[1]
         if t == 'if' and s[3] is None:
             c = s[1]
             while c[0] == 'paren':
@@ -1423,6 +1919,26 @@ class Tr:
                     pos += n
             if pos != eval_nat(count, val) * val.get('tsz', 1):
                 raise self.bad(f'numeric cross-check of the byte copies failed at {val}')
+
+
+def binds_name(stmts, name):
+    """does a statement list (re)bind or assign the local `name`?"""
+    for st in stmts:
+        if st[0] == 'let' and st[1] == name:
+            return True
+        if st[0] == 'assign' and unparen(st[1]) == ('path', [name]):
+            return True
+        if st[0] == 'for' and (st[1] == name or binds_name(st[4], name)):
+            return True
+        if st[0] == 'while' and binds_name(st[2], name):
+            return True
+        if st[0] == 'block' and binds_name(st[1], name):
+            return True
+        if st[0] == 'if' and (binds_name(st[2], name) or binds_name(st[3] or [], name)):
+            return True
+        if st[0] == 'match':
+            return True
+    return False
 
 
 def paren(s):
@@ -1581,9 +2097,9 @@ class Storage:
                 raise Unsupported(f'{self.file}: struct field `{item}`')
             name, ty = m.group(1), m.group(2).replace(' ', '')
             ma = re.fullmatch(r'\[T;(\w+)\]', ty)
-            if ma and name == 'arr' and ma.group(1) in self.consts:
+            if ma and ma.group(1) in self.consts:          # the buffer is known by its type, whatever it is called
                 self.fmap[name], self.cap_const = 'buf', ma.group(1)
-            elif ty == 'Vec<T>' and name == 'vec':
+            elif ty == 'Vec<T>':
                 self.fmap[name] = 'buf'
             elif ty == 'usize' and name in ('size', 'head', 'tail'):
                 self.fmap[name] = name
@@ -1751,72 +2267,171 @@ def apply_diff(text, diff, what):
 # ----------------------------------------------------------------------------------------------
 # mod.rs: SlidingWindow forwards 1:1, the constructors build the storages
 # ----------------------------------------------------------------------------------------------
-WRAP = {'push': 'pub fn push(&mut self, value: T) { self.storage.push(value) }',
-        'first': 'pub fn first(&self) -> Result<T, String> { self.storage.first() }',
-        'last': 'pub fn last(&self) -> Result<T, String> { self.storage.last() }',
-        'empty': 'pub fn empty(&self) -> bool { self.storage.empty() }',
-        'filled': 'pub fn filled(&self) -> bool { self.storage.filled() }',
-        'size': 'pub fn size(&self) -> usize { self.storage.size() }',
-        'arr': 'pub fn arr<const SIZE: usize>(&self) -> Result<[T; SIZE], String> { self.storage.arr() }',
-        'slice': 'pub fn slice(&self) -> Result<&[T], String> { self.storage.slice() }',
-        'vec': 'pub fn vec(&self) -> Result<Vec<T>, String> { self.storage.vec() }'}
+# forwarder -> (receiver, parameter types, return type); `arr` carries one const generic
+WRAP = {'push': ('mut', ['T'], ''), 'first': ('ref', [], 'Result<T,String>'), 'last': ('ref', [], 'Result<T,String>'),
+        'empty': ('ref', [], 'bool'), 'filled': ('ref', [], 'bool'), 'size': ('ref', [], 'usize'),
+        'arr': ('ref', [], None), 'slice': ('ref', [], 'Result<&[T],String>'), 'vec': ('ref', [], 'Result<Vec<T>,String>')}
+# spellings of the one value of type `PhantomData<T>`
+PHANTOM = [('path', ['PhantomData']), ('path', ['PhantomData', '<>']), ('path', ['marker', 'PhantomData']),
+           ('path', ['std', 'marker', 'PhantomData']), ('path', ['core', 'marker', 'PhantomData']),
+           ('call', ('path', ['Default', 'default']), []), ('call', ('path', ['PhantomData', 'default']), [])]
+
+
+def unparen(e):
+    while e[0] == 'paren':
+        e = e[1]
+    return e
+
+
+def single_value(body, where):
+    """a body that is `[let x = e;]* value` / `return value;` / `value;` -> (lets, value expression)"""
+    stmts = [st for st in parse_body(body, where) if st[0] != 'nop']
+    lets = {}
+    while stmts and stmts[0][0] == 'let':
+        lets[stmts[0][1]] = stmts[0][2]
+        stmts = stmts[1:]
+    if len(stmts) != 1 or stmts[0][0] not in ('tail', 'expr', 'return') or stmts[0][1] is None:
+        raise Unsupported(f'{where}: body is not a single expression')
+    return lets, unparen(stmts[0][1])
+
+
+def expand_uses(src):
+    """`use a::b::{c, d::e};` -> {last segment: full path} (nested braces expanded, `as` / globs refused where met)"""
+    out = {}
+
+    def expand(prefix, text):
+        text = text.strip()
+        m = re.fullmatch(r'((?:\w+\s*::\s*)*)\{(.*)\}', text, flags=re.S)
+        if m:
+            pre = prefix + [x for x in re.split(r'\s*::\s*', m.group(1)) if x]
+            for part in split_top(m.group(2)):
+                expand(pre, part)
+            return
+        if not re.fullmatch(r'\w+(\s*::\s*\w+)*', text):
+            return                                  # `as` renames, globs: never a storage we look for by its own name
+        segs = prefix + re.split(r'\s*::\s*', text)
+        out.setdefault(segs[-1], set()).add('::'.join(segs))
+    for m in re.finditer(r'\buse\s+([^;]+);', src):
+        expand([], m.group(1))
+    return out
 
 
 def check_mod(repo, storages):
-    """returns {kind: constructor argument order}"""
+    """mod.rs: `SlidingWindow` holds the storage and a `PhantomData`, `with_storage` stores its argument, every public
+    method forwards its arguments in order to the storage method of the same name (in however many `impl` blocks),
+    and each `new_with_*_storage` wraps `<Storage>::new(..)`.  Returns {kind: constructor argument order}."""
     f = 'mod.rs'
     src = clean((repo / (W + f)).read_text())
-    flat = ' '.join(src.split())
-    for n, want in WRAP.items():
-        if flat.count(want) != 1:
-            raise Unsupported(f'{f}: SlidingWindow::{n} is not the plain forwarder `{want}`')
-    if not re.search(r'pub struct SlidingWindow<S, T> where T: PartialEq \+ Copy \+ Default, S: WindowStorage<T>, '
-                     r'\{ storage: S, ty: PhantomData<T>, \}', flat):
-        raise Unsupported(f'{f}: struct SlidingWindow changed')
-    if 'pub(crate) fn with_storage(storage: S) -> Self { Self { storage, ty: Default::default(), } }' not in flat:
-        raise Unsupported(f'{f}: SlidingWindow::with_storage changed')
-    # the wrapper must have no further methods that mutate the storage
-    wrapper_fns = []
-    for kw, h, b in items(src):
-        if kw == 'impl' and re.match(r'impl<S, T> SlidingWindow<S, T>', h):
-            wrapper_fns += [fn.name for fn in fns_of(b, f)[0]]
-    if sorted(wrapper_fns) != sorted(list(WRAP) + ['with_storage']):
-        raise Unsupported(f'{f}: methods of SlidingWindow: {sorted(wrapper_fns)}')
+    its = items(src)
+    structs = [(h, b) for kw, h, b in its if kw == 'struct' and re.match(r'struct SlidingWindow\b', h)]
+    if len(structs) != 1:
+        raise Unsupported(f'{f}: expected exactly one struct SlidingWindow')
+    mh = re.match(r'struct SlidingWindow\s*<\s*(\w+)\s*,\s*(\w+)\s*>', structs[0][0])
+    if not mh:
+        raise Unsupported(f'{f}: struct SlidingWindow changed: {structs[0][0]}')
+    storage_field = None
+    fields = {}
+    for item in split_top(structs[0][1]):
+        m = re.fullmatch(r'(?:pub(?:\([^)]*\))?\s+)?(\w+)\s*:\s*(.+)', item)
+        if not m:
+            raise Unsupported(f'{f}: struct SlidingWindow: field `{item}`')
+        fields[m.group(1)] = m.group(2).replace(' ', '')
+    sg = [n for n, ty in fields.items() if ty in mh.groups()]
+    ph = [n for n, ty in fields.items() if re.fullmatch(r'(?:(?:std|core)::)?(?:marker::)?PhantomData<\w+>', ty)]
+    if len(fields) != 2 or len(sg) != 1 or len(ph) != 1:
+        raise Unsupported(f'{f}: struct SlidingWindow is not (storage, PhantomData): {fields}')
+    storage_field, phantom_field, storage_generic = sg[0], ph[0], fields[sg[0]]
+    if not re.search(r'\b' + storage_generic + r'\s*:\s*WindowStorage<', structs[0][0]):
+        raise Unsupported(f'{f}: struct SlidingWindow: the storage parameter is not bound by WindowStorage')
+
+    wrapper = {}
+    for kw, h, b in its:
+        if kw == 'impl' and ' for ' not in re.split(r'\bwhere\b', h)[0] and re.search(r'>\s*SlidingWindow\s*<', h):
+            for fn in fns_of(b, f)[0]:
+                if fn.name in wrapper:
+                    raise Unsupported(f'{f}: two methods named {fn.name}')
+                wrapper[fn.name] = fn
+    if sorted(wrapper) != sorted(list(WRAP) + ['with_storage']):
+        raise Unsupported(f'{f}: methods of SlidingWindow: {sorted(wrapper)}')
+    for n, (recv, ptys, ret) in WRAP.items():
+        fn = wrapper[n]
+        where = f'{f}::SlidingWindow::{n}'
+        ok = fn.recv == recv and [ty for _, ty in fn.params] == ptys
+        const = None
+        if n == 'arr':
+            mg = re.fullmatch(r'<const(\w+):usize>', fn.generics.replace(' ', ''))
+            const = mg.group(1) if mg else None
+            ok = ok and const is not None and fn.ret == f'Result<[T;{const}],String>'
+        else:
+            ok = ok and not fn.generics and fn.ret == ret
+        if not ok:
+            raise Unsupported(f'{where}: signature changed')
+        lets, e = single_value(fn.body, where)
+        want_args = [('path', [pn]) for pn, _ in fn.params]
+        if lets or e[0] != 'mcall' or e[1] != ('field', ('path', ['self']), storage_field) or e[2] != n or \
+                [unparen(x) for x in e[3]] != want_args or (len(e) > 4 and e[4] != const):
+            raise Unsupported(f'{where} is not the plain forwarder `self.{storage_field}.{n}(..)`')
+    fn = wrapper['with_storage']
+    where = f'{f}::SlidingWindow::with_storage'
+    if fn.recv is not None or len(fn.params) != 1 or fn.params[0][1] != storage_generic or fn.generics or \
+            not re.fullmatch(r'Self|SlidingWindow<\w+,\w+>', fn.ret):
+        raise Unsupported(f'{where}: signature changed')
+    lets, e = single_value(fn.body, where)
+    if lets or e[0] != 'struct' or e[1] not in ('Self', 'SlidingWindow') or sorted(n for n, _ in e[2]) != sorted(fields):
+        raise Unsupported(f'{where} changed: not a struct literal of SlidingWindow')
+    init = {n: unparen(x) for n, x in e[2]}
+    if init[storage_field] != ('path', [fn.params[0][0]]) or init[phantom_field] not in PHANTOM:
+        raise Unsupported(f'{where} changed: the storage is not stored as passed / the marker is not a PhantomData')
+
+    uses = expand_uses(src)
+    pre = expand_uses(clean((repo / 'dcl_data_structures/src/prelude.rs').read_text()))
     ctors = {}
     for kind, fname in (('arr', 'new_with_array_storage'), ('vec', 'new_with_vector_storage'),
                         ('uarr', 'new_with_unsafe_array_storage'), ('uvec', 'new_with_unsafe_vector_storage')):
         st = storages[kind]
+        # the storage's name in mod.rs must be the struct of the file that was translated
+        home = 'crate::window_type::' + st.file[:-3].replace('/', '::') + '::' + st.rust
+        got = set(uses.get(st.rust, ()))
+        if got == {'crate::prelude::' + st.rust}:
+            got = set(pre.get(st.rust, ()))
+        if got != {home}:
+            raise Unsupported(f'{f}: `{st.rust}` is not imported from {home} (found {sorted(got)})')
         fn = None
-        for kw, h, b in items(src):
+        for kw, h, b in its:
             if kw == 'fn' and re.match(r'fn ' + fname + r'\b', h):
                 fn = Fn(h, b, f)
         if fn is None:
             raise Unsupported(f'{f}: {fname} not found')
-        body = ' '.join(fn.body.split())
+        where = f'{f}::{fname}'
+        lets, e = single_value(fn.body, where)
+        for _ in range(len(lets) + 1):           # values through locals
+            if e[0] == 'call' and len(e[2]) == 1 and unparen(e[2][0])[0] == 'path' and len(unparen(e[2][0])[1]) == 1 \
+                    and unparen(e[2][0])[1][0] in lets:
+                e = ('call', e[1], [unparen(lets[unparen(e[2][0])[1][0]])])
+        if e[0] != 'call' or e[1] != ('path', ['SlidingWindow', 'with_storage']) or len(e[2]) != 1:
+            raise Unsupported(f'{where} does not end in SlidingWindow::with_storage(..)')
+        inner = unparen(e[2][0])
+        if inner[0] != 'call' or inner[1] != ('path', [st.rust, 'new']):
+            raise Unsupported(f'{where} does not pass `{st.rust}::new(..)` to with_storage')
+        args = [unparen(x) for x in inner[2]]
         if st.cap_const:
             consts = re.findall(r'const (\w+)\s*:\s*usize', fn.generics)
             want_ret = f'SlidingWindow<{st.rust}<T,{",".join(consts)}>,T>'
-            if fn.params or len(consts) != 2 or fn.ret != want_ret or \
-                    body != f'let storage = {st.rust}::new(); SlidingWindow::with_storage(storage)':
-                raise Unsupported(f'{f}: {fname} does not build `{st.rust}<T, …>` from its const parameters: {body}')
+            if fn.params or len(consts) != 2 or fn.ret != want_ret or args:
+                raise Unsupported(f'{where} does not build `{st.rust}<T, …>` from its const parameters')
             ctors[kind] = [0, 1]
         else:
             ps = [p for p, ty in fn.params]
-            m = re.fullmatch(r'let storage = ' + st.rust + r'::new\((\w+), (\w+)\); SlidingWindow::with_storage\(storage\)', body)
-            if not m or sorted(ps) != sorted(m.groups()) or len(ps) != 2 or [ty for _, ty in fn.params] != ['usize', 'usize'] \
-                    or fn.ret != f'SlidingWindow<{st.rust}<T>,T>':
-                raise Unsupported(f'{f}: {fname} not recognised: {body}')
-            ctors[kind] = [ps.index(m.group(1)), ps.index(m.group(2))]
-    pre = clean((repo / 'dcl_data_structures/src/prelude.rs').read_text())
-    pre = ' '.join(pre.split())
-    for want in ('pub use crate::window_type::storage::WindowStorage;',
-                 'pub use crate::window_type::storage_safe::storage_array::ArrayStorage;',
-                 'pub use crate::window_type::storage_safe::storage_vec::VectorStorage;'):
-        if want not in pre:
-            raise Unsupported('prelude.rs: missing `' + want + '`')
-    if not re.search(r'use crate::window_type::storage_unsafe::\{ unsafe_storage_array::UnsafeArrayStorage, '
-                     r'unsafe_storage_vec::UnsafeVectorStorage, \};', flat):
-        raise Unsupported(f'{f}: import of the unsafe storages changed')
+            names = [x[1][0] if x[0] == 'path' and len(x[1]) == 1 else None for x in args]
+            if len(ps) != 2 or sorted(ps) != sorted(n or '' for n in names) or set(ps) & set(lets) or \
+                    [ty for _, ty in fn.params] != ['usize', 'usize'] or fn.ret != f'SlidingWindow<{st.rust}<T>,T>':
+                raise Unsupported(f'{where} not recognised')
+            ctors[kind] = [ps.index(names[0]), ps.index(names[1])]
+    ws = set(uses.get('WindowStorage', ()))
+    if ws == {'crate::prelude::WindowStorage'}:
+        ws = set(pre.get('WindowStorage', ()))
+    if ws != {'crate::window_type::storage::WindowStorage'}:
+        raise Unsupported(f'{f}: `WindowStorage` is not imported from crate::window_type::storage')
     return ctors
 
 
@@ -1858,7 +2473,15 @@ def gen_window(repo):
         out += [f'/-! ## {st.rust} ({st.file}) -/', '']
         names = {'new': st.gen('inherent', 'new')}
         for n in st.inherent:
-            st.gen('inherent', n)
+            # private helpers are inlined wherever they are called; their stand-alone definitions are for the reader only
+            # (no theorem and no other definition refers to them), so one that has no stand-alone form is just noted
+            try:
+                st.gen('inherent', n)
+            except Unsupported as ex:
+                if n == 'new':
+                    raise
+                st.busy.discard(('inherent', n))
+                st.out += [f'-- {st.rust}::{n}: inlined at its call sites, no stand-alone definition ({ex})', '']
         for n in REQUIRED + DEFAULTS:
             names[n] = st.trait_method(n)
         out += st.out
